@@ -47,7 +47,11 @@
 (*               number (a plausible wrong implementation: TLC must find   *)
 (*               the counterexample, which shows that the enumeration      *)
 (*               reaches the class); "fileline" = runs of equal decoded    *)
-(*               (file, line).                                             *)
+(*               (file, line): differs from "gline" only where two         *)
+(*               different lines are renumbered to the same (file, line),  *)
+(*               e.g. `#line 4' twice; both print headings that name the   *)
+(*               right file and line, the requirement is stated on the     *)
+(*               physical line.                                            *)
 (***************************************************************************)
 EXTENDS Include, SequencesExt
 
